@@ -158,6 +158,24 @@ def run(tier, seed, replay=None):
                     metas.append((doc, text))
                 except Unmodelled:
                     stats["unmodelled"] += 1
+        # the same elements once they have validated values: a call leaves nothing on an element that == can see
+        from props.c05 import quiet_call
+        for v in dslgen.gen_values(rng, doc, 3):
+            quiet_call(root, v)
+        for sub in elems[1:4]:                      # and a few sub-elements called directly
+            quiet_call(sub, rng.choice(["a", 1, None, [], {}]))
+        for x in elems:
+            try:
+                text = repr(x)
+                y = eval(text, dict(ns))
+                ok = (y == x) is True and (x == y) is True
+            except BaseException as exc:  # noqa
+                ok = False
+            stats["used_round_trips"] = stats.get("used_round_trips", 0) + 1
+            if not ok:
+                res.violation({"property": "C18", "kind": "oracle", "doc": doc, "repr": text[:2000],
+                               "what": "after the element validated some values, eval(repr(e)) != e", "replay": "./check C18 --replay <this file>"})
+                break
         for kind, p in props_all:
             stats["properties"] += 1
             if kind != "bound":
